@@ -85,6 +85,25 @@ func (e *env) take(op string, node int) (Fault, bool) {
 	return Fault{}, false
 }
 
+// breaking is a fetched stream that fails after `left` bytes.
+type breaking struct {
+	rc   io.ReadCloser
+	left int64
+}
+
+func (b *breaking) Read(p []byte) (int, error) {
+	if b.left <= 0 {
+		return 0, ErrInjected
+	}
+	if int64(len(p)) > b.left {
+		p = p[:b.left]
+	}
+	n, err := b.rc.Read(p)
+	b.left -= int64(n)
+	return n, err
+}
+func (b *breaking) Close() error { return b.rc.Close() }
+
 // srcW wraps the source. It is a ReadOnlyGraphTarget.
 type srcW struct {
 	e   *env
@@ -105,7 +124,15 @@ func (w *srcW) Fetch(ctx context.Context, d ocispec.Descriptor) (io.ReadCloser, 
 		w.e.tr.Emit(map[string]any{"e": "fetchE", "n": n, "man": man, "err": true, "why": "ctx"})
 		return nil, err
 	}
-	if _, ok := w.e.take("fetch", n); ok {
+	if f, ok := w.e.take("fetch", n); ok {
+		if f.Phase == "mid" {
+			// the fetch succeeds, the stream breaks after half of the bytes
+			rc, err := w.und.Fetch(ctx, d)
+			if err == nil {
+				w.e.tr.Emit(map[string]any{"e": "fetchE", "n": n, "man": man, "err": false, "why": "midfault"})
+				return &breaking{rc: rc, left: d.Size / 2}, nil
+			}
+		}
 		w.e.tr.Emit(map[string]any{"e": "fetchE", "n": n, "man": man, "err": true, "why": "fault"})
 		return nil, ErrInjected
 	}
@@ -191,6 +218,10 @@ func (w *srcRefW) Referrers(ctx context.Context, d ocispec.Descriptor, artifactT
 	return err
 }
 
+type failing struct{ err error }
+
+func (f *failing) Read([]byte) (int, error) { return 0, f.err }
+
 // dstW wraps the destination. It is a Target.
 type dstW struct {
 	e   *env
@@ -273,8 +304,13 @@ func (w *dstW) Push(ctx context.Context, d ocispec.Descriptor, r io.Reader) erro
 	// read everything first so that the bytes handed over can be logged
 	b, rerr := io.ReadAll(r)
 	if rerr != nil {
+		// the source stream broke: the store sees the bytes that arrived and then the same error
+		perr := w.und.Push(ctx, d, io.MultiReader(bytes.NewReader(b), &failing{rerr}))
+		if perr == nil {
+			perr = rerr
+		}
 		w.e.tr.Emit(map[string]any{"e": "pushE", "n": n, "r": "read", "has": w.has()})
-		return rerr
+		return perr
 	}
 	err := w.und.Push(ctx, d, bytes.NewReader(b))
 	if armed {
